@@ -28,12 +28,15 @@ const maxLines = 14       // id columns declared per record (lines of a multi-li
 
 // ---- names <-> text ------------------------------------------------------------------------------
 
+// declText is the `name` written into the schema.  Declaration names are local xpath step names:
+// they need not be unique, a group and a record may share one, and (EDI) a group may carry the
+// name of a segment.  Names 1..26 print as a letter, others as d<k> -- groups and records alike.
 func declText(d *Decl, ediSeg bool) string {
 	if ediSeg && !d.Group {
 		return nameStr(d.Leaf.N)
 	}
-	if d.Group {
-		return fmt.Sprintf("g%d", d.Name)
+	if d.Name >= 1 && d.Name <= 26 {
+		return nameStr(d.Name)
 	}
 	return fmt.Sprintf("d%d", d.Name)
 }
